@@ -60,18 +60,25 @@ func Open(dir string, c Cfg) (*engine.EngineFacade, error) {
 }
 
 // Quiesce waits until the background flush goroutine has nothing left to do.
-// It returns false when the cap was hit.
+// VerifImmutableCount takes the flush mutex, so a flush in progress is waited
+// for. Immutable tables that nobody was signalled about (the ones recovered at
+// open are only picked up by the 10 s ticker) would make it wait for nothing:
+// when the count has not moved for 25 ms the engine is idle and Quiesce
+// returns false ("left-over immutables"), which callers only count.
 func Quiesce(e *engine.EngineFacade) bool {
 	sm, ok := e.VerifStorage().(*storage.Manager)
 	if !ok {
 		return true
 	}
-	deadline := time.Now().Add(3 * time.Second)
+	last, lastChange := -1, time.Now()
 	for {
-		if sm.VerifImmutableCount() == 0 {
+		n := sm.VerifImmutableCount()
+		if n == 0 {
 			return true
 		}
-		if time.Now().After(deadline) {
+		if n != last {
+			last, lastChange = n, time.Now()
+		} else if time.Since(lastChange) > 25*time.Millisecond {
 			return false
 		}
 		time.Sleep(100 * time.Microsecond)
